@@ -49,6 +49,13 @@ type FCase struct {
 	Eps    int64
 }
 
+// FRef: two pointer fields that share one object; used with an unknown CONTAINER field in front
+type FRef struct {
+	Owner  *zoo.Inner
+	Editor *zoo.Inner
+	N      int32
+}
+
 // FEmpty: a Go struct without fields; every wire field of its class is unknown and must be skipped
 type FEmpty struct{}
 
@@ -61,6 +68,8 @@ func (c05) Cases(tier string, seed int64, kf *KnownFindings) []Case {
 	add(Case{Kind: "drop", Seed: Mix(seed, 2), Count: 32})
 	add(Case{Kind: "extra1", Seed: Mix(seed, 3), Count: 6 * len(extraKinds)})
 	add(Case{Kind: "pos", Seed: Mix(seed, 4), Count: 41 * 4 * 2})
+	add(Case{Kind: "skipref", Seed: Mix(seed, 5), Count: 24})
+	add(Case{Kind: "dupdef", Seed: Mix(seed, 6), Count: 12})
 	n, per := 8, 100
 	if tier == "thorough" {
 		n, per = 128, 1500
@@ -71,7 +80,7 @@ func (c05) Cases(tier string, seed int64, kf *KnownFindings) []Case {
 	return cs
 }
 
-var extraKinds = []string{"int", "string", "chunked-string", "list", "map", "object", "ref", "null", "double", "binary", "long", "date", "typed-list", "bool"}
+var extraKinds = []string{"int", "string", "chunked-string", "list", "map", "object", "ref", "null", "double", "binary", "long", "date", "typed-list", "bool", "double2", "double3", "double9", "double1", "long2", "long3", "int5"}
 
 type c05spec struct {
 	goType   reflect.Type
@@ -203,6 +212,20 @@ func (sp *c05spec) build() (stream []byte, reads int, pickLast bool, expect inte
 			av = hspec.Long(1 << 40)
 		case "double":
 			av = hspec.Double(3.25)
+		case "double1":
+			av = hspec.Double(1)
+		case "double2":
+			av = hspec.Double(-100)
+		case "double3":
+			av = hspec.Double(30000)
+		case "double9":
+			av = hspec.Double(0.1)
+		case "long2":
+			av = hspec.Long(2000)
+		case "long3":
+			av = hspec.Long(-200000)
+		case "int5":
+			av = hspec.Int(1 << 30)
 		case "bool":
 			av = hspec.Bool(true)
 		case "date":
@@ -325,6 +348,10 @@ func (c05) Run(c Case, env *Env) Result {
 	hows := []string{"stream", "list", "hoist", "hoist-reorder"}
 	tEmpty := reflect.TypeOf(FEmpty{})
 	for j := lo; j < hi; j++ {
+		if c.Kind == "skipref" || c.Kind == "dupdef" {
+			c05special(c, j, env, &res)
+			continue
+		}
 		r := rand.New(rand.NewSource(Mix(c.Seed, j)))
 		sp := &c05spec{goType: t5, how: "stream", valsSeed: Mix(c.Seed, 5000+j)}
 		feats := []string{"kind=" + c.Kind}
@@ -556,4 +583,116 @@ func fact(n int) int {
 		f *= i
 	}
 	return f
+}
+
+// c05special: hand-built shapes that the generic builder does not produce.
+//
+//	skipref: an unknown wire field holding a CONTAINER, then an object field, then a field that
+//	         refers back to that object (a skipped container must keep its reference number);
+//	dupdef:  the same class definition sent again before each instance, so instances carry the
+//	         numbers 0,1,2,... of identical definitions (incl. #2 in value position).
+func c05special(c Case, j int, env *Env, res *Result) {
+	inner := func(a int32, s string) *hspec.Value {
+		return hspec.Object("test.Inner", []string{"a", "s"}, hspec.Int(a), hspec.String(s))
+	}
+	tm := map[string]reflect.Type{"test.Inner": reflect.TypeOf(zoo.Inner{}), "test.FRef": reflect.TypeOf(FRef{}), "[int32": reflect.TypeOf([]int32{})}
+	cc := c
+	cc.Sub = j
+	res.Evals++
+	var stream []byte
+	var expect interface{}
+	var desc string
+	feats := []string{"kind=" + c.Kind}
+	enc := hspec.NewEncoder(hspec.Canonical{}, hspec.EncOpts{})
+	switch c.Kind {
+	case "skipref":
+		unk := []*hspec.Value{
+			hspec.List("", hspec.Int(1), hspec.String("x")), hspec.List("[int32", hspec.Int(1)), hspec.Map("", hspec.String("k"), hspec.Int(1)),
+			inner(9, "unknown-object"), hspec.List("", hspec.List("", hspec.Int(1)), hspec.Map("")), hspec.List(""),
+		}[j%6]
+		owner := inner(int32(j), "owner")
+		names := []string{"tags", "owner", "editor", "n"}
+		vals := []*hspec.Value{unk, owner, owner, hspec.Int(7)} // the second `owner` is written as a ref
+		switch (j / 6) % 4 {
+		case 1: // unknown container between owner and the reference to it
+			names = []string{"owner", "tags", "editor", "n"}
+			vals = []*hspec.Value{owner, unk, owner, hspec.Int(7)}
+		case 2: // two unknown containers
+			names = []string{"tags", "more", "owner", "editor", "n"}
+			vals = []*hspec.Value{unk, hspec.Map("", hspec.Int(1), hspec.Int(2)), owner, owner, hspec.Int(7)}
+		case 3: // the whole thing as an element of a list after another container
+			names = []string{"tags", "owner", "n", "editor"}
+			vals = []*hspec.Value{unk, owner, hspec.Int(7), owner}
+		}
+		o := hspec.Object("test.FRef", names, vals...)
+		enc.Value(o)
+		stream = enc.Out
+		in := &zoo.Inner{A: int32(j), S: "owner"}
+		expect = &FRef{Owner: in, Editor: in, N: 7}
+		desc = fmt.Sprintf("fields=%v (unknown container field %s)", names, hspec.ShortString(unk))
+		feats = append(feats, "unknown-container-before-backref")
+	case "dupdef":
+		n := 3 + j%4
+		l := hspec.List("")
+		var want []interface{}
+		for i := 0; i < n; i++ {
+			x := inner(int32(100+i), fmt.Sprintf("i%d", i))
+			l.Elems = append(l.Elems, x)
+			want = append(want, &zoo.Inner{A: int32(100 + i), S: fmt.Sprintf("i%d", i)})
+		}
+		// hand-rolled: definition again before every instance
+		e2 := hspec.NewEncoder(hspec.Canonical{}, hspec.EncOpts{})
+		if j%2 == 0 {
+			e2.Out = append(e2.Out, byte(0x78+n)) // fixed-length untyped list
+		} else {
+			e2.Out = append(e2.Out, 0x57) // variable-length untyped list
+		}
+		for i, x := range l.Elems {
+			if i == 0 {
+				e2.Define(x)
+			} else {
+				e2.DefineAgain(x)
+			}
+			// instance by hand so that the list header written above stays the container
+			idx := i
+			e2.Out = append(e2.Out, byte(0x60+idx))
+			sub := hspec.NewEncoder(hspec.Canonical{}, hspec.EncOpts{})
+			sub.Value(x.Elems[0])
+			sub.Value(x.Elems[1])
+			e2.Out = append(e2.Out, sub.Out...)
+		}
+		if j%2 == 1 {
+			e2.Out = append(e2.Out, 'Z')
+		}
+		stream = e2.Out
+		expect = want
+		desc = fmt.Sprintf("%d instances, each preceded by an identical definition (numbers 0..%d)", n, n-1)
+		feats = append(feats, "repeated-identical-definitions", "class#2")
+	}
+	res.NT = append(res.NT, Hash64(string(stream)))
+	viol := func(class, detail string) {
+		env.Viol(res, Violation{Class: class, Features: feats, Detail: fmt.Sprintf("%s: %s; stream %s", desc, detail, hexClip(stream)), Case: cc})
+	}
+	if _, _, err := hspec.Parse(stream); err != nil {
+		res.Inconclusive = append(res.Inconclusive, "harness built a malformed stream: "+err.Error())
+		return
+	}
+	var out interface{}
+	var derr error
+	pi, _ := Guard(func() { out, derr = hessian.ToObject(stream, tm) })
+	switch {
+	case pi != nil:
+		viol("panic", pi.Msg)
+	case derr != nil:
+		viol("dec-error", derr.Error())
+	default:
+		if d := zoo.Equiv(expect, out, zoo.EquivOpts{}); d != "" {
+			viol("mismatch", d)
+		} else if c.Kind == "skipref" {
+			if f, ok := out.(*FRef); !ok || f.Owner != f.Editor {
+				viol("mismatch", "the back-reference after the skipped container does not resolve to the owner object")
+			}
+		}
+	}
+	res.Count("kind="+c.Kind, 1)
 }
